@@ -114,6 +114,17 @@ CLAIMED = {
    note="JWS verification idealised (field `verifies` from the harness's knowledge of the signing key); the request_uri fetch transport is not driven "
         "(its policy code predates the fix); JWE not modelled.",
    technique="Lean 4 proof (decision logic + one-shot history invariant by induction) + endpoint correspondence with concrete request objects", ref="6 C16"),
+ "C19": dict(
+   text="Lean theorems: admission_table — over the whole finite space application type x response-type class x scheme class x loopback x fragment "
+        "the code admits exactly what the rule written from the property allows (exhaustive case analysis, kernel-checked); a stored client has "
+        "only admissible URIs and consistent metadata; a rejected request leaves the state unchanged (after the fix); ids, secrets and tokens of "
+        "every registration are fresh and pairwise distinct in every reachable state (invariant by induction over registration histories); "
+        "read_isolated — the registration access token issued to X reads X and no other client, unknown tokens refused. Tie: histories of "
+        "registrations and reads through the real registration and registration-read endpoints; oracle with the rule on the URI string, "
+        "database/token-map diff on rejection, distinctness, echo = stored.",
+   note="Capability matching (match_claim), sector_identifier fetch and split_uri/comb_uri are not modelled (echo and metadata consistency are oracle-checked); "
+        "URI features are computed with urllib at the interface.",
+   technique="Lean 4 proof (exhaustive decision table + freshness invariant by induction) + endpoint correspondence on registration histories", ref="6 C19"),
 }
 NOT_YET = {}
 ALL = [f"C{i:02d}" for i in range(1, 21)]
